@@ -419,6 +419,8 @@ func TestVerifC16(t *testing.T) {
 	{
 		R := rep.New("C16", "roundtrip")
 		valid := c16Alpha[:len(c16Alpha)-1]
+		// values also run over the control characters a printer might decide to escape (only \n, \" and \\ are)
+		valuesAlpha := append(append([]string{}, valid...), "\r", "\t", "\v")
 		maxN, maxV := 2, 3
 		if rep.Thorough() {
 			maxN, maxV = 2, 4
@@ -437,7 +439,7 @@ func TestVerifC16(t *testing.T) {
 			if ctr%nsh != shard || timedOut {
 				continue
 			}
-			words(valid, maxV, func(v string) bool {
+			words(valuesAlpha, maxV, func(v string) bool {
 				if !utf8.ValidString(v) {
 					return true
 				}
@@ -462,7 +464,7 @@ func TestVerifC16(t *testing.T) {
 		if shard == 0 {
 			var small []*labels.Matcher
 			for _, n := range []string{"a", "é", `a"`, "a b", "_1", `\`} {
-				for _, v := range []string{"", "1", `"`, `\`, "\n", ",", "{}", "é😀", " "} {
+				for _, v := range []string{"", "1", `"`, `\`, "\n", ",", "{}", "é😀", " ", "a\r\nb", "\t"} {
 					for ty := labels.MatchEqual; ty <= labels.MatchNotRegexp; ty++ {
 						if m, err := labels.NewMatcher(ty, n, v); err == nil {
 							small = append(small, m)
